@@ -653,3 +653,19 @@ func trimQuotes(s string) string {
 	}
 	return s
 }
+
+// barewordValue returns the value of an unquoted word. The keyword
+// alternatives of the grammar only match null, true and false in front of a
+// comma or a closing parenthesis; directly in front of a closing bracket, as
+// the last item of a list, they arrive here and must not become strings.
+func barewordValue(s string) interface{} {
+	switch s {
+	case "null":
+		return nil
+	case "true":
+		return true
+	case "false":
+		return false
+	}
+	return s
+}
